@@ -237,6 +237,9 @@ fn run_spline(cfg: &Cfg) -> ! {
     }));
     // scale sentinels: splines with many segments (control-point counts beyond 255), approximate() at depth
     rep.merge(par_range(cfg, 4, |i, r| { let n = [40usize, 85, 100, 300][i as usize]; check_spline::<f32>(n, 1, r); check_spline::<Vec2>(n, 2, r); }));
+    // ... with the depth-bound runs (thresholds 0 and -1: 2^16 / 2^17 pieces) on either side of the segment counts at which
+    // the depth bound 10 + log2(len) steps up (len = 64 at 21 segments, 128 at 43)
+    rep.merge(par_range(cfg, 5, |i, r| { let n = [20usize, 21, 22, 42, 43][i as usize]; check_spline::<f32>(n, 0, r); if n == 21 { check_spline::<Vec2>(n, 0, r); } }));
     // step helpers
     for k in -64..=128 {
         let t = k as f32 / 64.0;
